@@ -307,3 +307,40 @@ func MakeBlock(producer *Node, parent *types.Block, txs []*types.Transaction, di
 	}
 	return detail.Block, nil
 }
+
+// Finalise delivers the finaliser's verdict "the block hash at this height is final" through the real queue
+// message (EventSnowmanAcceptBlk, handled asynchronously). The module takes it only for a block of its best
+// chain: then Finalise waits until the module reports it as its last choice and returns true. For a block
+// outside the best chain the module leaves its record alone; Finalise returns false.
+func (n *Node) Finalise(height int64, hash []byte) (bool, error) {
+	onBest := false
+	if rh, err := n.Chain.ProcGetBlockHash(&types.ReqInt{Height: height}); err == nil && string(rh.Hash) == string(hash) {
+		onBest = true
+	}
+	msg := n.Client.NewMessage("blockchain", types.EventSnowmanAcceptBlk, &types.SnowChoice{Height: height, Hash: hash})
+	if err := n.Client.Send(msg, false); err != nil {
+		return false, err
+	}
+	var got int64 = -1
+	for i := 0; i < 5000; i++ {
+		lc := n.Client.NewMessage("blockchain", types.EventSnowmanLastChoice, nil)
+		if err := n.Client.Send(lc, true); err != nil {
+			return false, err
+		}
+		reply, err := n.Client.Wait(lc)
+		if err != nil {
+			return false, err
+		}
+		if c, ok := reply.GetData().(*types.SnowChoice); ok {
+			got = c.Height
+			if got == height && string(c.Hash) == string(hash) {
+				return true, nil
+			}
+		}
+		if !onBest && i >= 5 {
+			return false, nil
+		}
+		time.Sleep(2 * time.Millisecond)
+	}
+	return false, fmt.Errorf("block %d is on the best chain but the finalised height stays %d", height, got)
+}
